@@ -1,7 +1,10 @@
 package rules
 
 import (
+	"fmt"
+	"go/ast"
 	"go/token"
+	"regexp"
 	"go/types"
 	"sort"
 	"strings"
@@ -162,32 +165,7 @@ func c38Decisions(r *core.Run, rule string) {
 			continue
 		}
 		conds, calls := map[string]bool{}, map[string]bool{}
-		core.Instrs(fn, true, func(in ssa.Instruction) {
-			switch x := in.(type) {
-			case *ssa.If:
-				c := x.Cond
-				for {
-					if u, ok := c.(*ssa.UnOp); ok && u.Op == token.NOT {
-						c = u.X
-						continue
-					}
-					break
-				}
-				if phi, isPhi := c.(*ssa.Phi); isPhi {
-					for _, e := range phi.Edges {
-						if _, isConst := e.(*ssa.Const); !isConst {
-							conds[normCond(core.ValueDesc(e))] = true
-						}
-					}
-					return
-				}
-				conds[normCond(core.ValueDesc(c))] = true
-			case ssa.CallInstruction:
-				if o := core.Callee(x); o != nil && o.Pkg() != nil && core.InMod(o.Pkg().Path()) {
-					calls[o.Name()] = true
-				}
-			}
-		})
+		c38Collect(fn, nil, 0, conds, calls)
 		got[core.SSAKey(fn)] = entry{sortedKeys(conds), sortedKeys(calls)}
 	}
 	if genMode() {
@@ -212,8 +190,11 @@ func c38Decisions(r *core.Run, rule string) {
 			have["f:"+c] = true
 		}
 		var missing []string
+		for _, c := range cur.Conds {
+			have["l:"+c38Loose(c)] = true
+		}
 		for _, c := range pinned[k].Conds {
-			if !have["c:"+c] {
+			if !have["c:"+c] && !have["l:"+c38Loose(c)] {
 				missing = append(missing, "condition "+c)
 			}
 		}
@@ -420,4 +401,101 @@ func c39(r *core.Run) {
 		r.Undecided("R5.writeback", "formatter/trivia", "no in-place filter of a comment list found")
 	}
 	r.Floor("R5.writeback", 1)
+}
+
+var c38Group = regexp.MustCompile(`\{[^{}]*\}`)
+
+// c38Subst rewrites the leaf groups of a descriptor: a `param#i:T` leaf of a helper is replaced by the leaves of the
+// argument the printer passes at that position, so a decision moved into a helper keeps its descriptor.
+func c38Subst(desc string, subst map[int][]string) string {
+	if len(subst) == 0 {
+		return desc
+	}
+	return c38Group.ReplaceAllStringFunc(desc, func(g string) string {
+		toks := strings.Fields(g[1 : len(g)-1])
+		set := map[string]bool{}
+		for _, t := range toks {
+			if strings.HasPrefix(t, "param#") {
+				var i int
+				if _, err := fmt.Sscanf(t, "param#%d:", &i); err == nil {
+					if rep, ok := subst[i]; ok {
+						for _, x := range rep {
+							set[x] = true
+						}
+						continue
+					}
+				}
+			}
+			set[t] = true
+		}
+		return "{" + strings.Join(sortedKeys(set), " ") + "}"
+	})
+}
+
+// c38Loose drops parameter leaves and, in groups that have other members, the nil constant a phi contributes.
+func c38Loose(desc string) string {
+	return c38Group.ReplaceAllStringFunc(desc, func(g string) string {
+		toks := strings.Fields(g[1 : len(g)-1])
+		var keep []string
+		for _, t := range toks {
+			if strings.HasPrefix(t, "param#") || strings.HasPrefix(t, "closure-param") {
+				continue
+			}
+			keep = append(keep, t)
+		}
+		if len(keep) > 1 {
+			var k2 []string
+			for _, t := range keep {
+				if t != "const:nil" {
+					k2 = append(k2, t)
+				}
+			}
+			keep = k2
+		}
+		return "{" + strings.Join(keep, " ") + "}"
+	})
+}
+
+// c38Collect gathers the branch conditions and module callees of a printer method, following static calls into
+// helpers of the same package (not themselves Doc methods) up to depth 2 with the helper's parameters replaced by
+// the caller's arguments.
+func c38Collect(fn *ssa.Function, subst map[int][]string, depth int, conds, calls map[string]bool) {
+	core.Instrs(fn, true, func(in ssa.Instruction) {
+		switch x := in.(type) {
+		case *ssa.If:
+			c := x.Cond
+			for {
+				if u, ok := c.(*ssa.UnOp); ok && u.Op == token.NOT {
+					c = u.X
+					continue
+				}
+				break
+			}
+			if phi, isPhi := c.(*ssa.Phi); isPhi {
+				for _, e := range phi.Edges {
+					if _, isConst := e.(*ssa.Const); !isConst {
+						conds[c38Subst(normCond(core.ValueDesc(e)), subst)] = true
+					}
+				}
+				return
+			}
+			conds[c38Subst(normCond(core.ValueDesc(c)), subst)] = true
+		case ssa.CallInstruction:
+			o := core.Callee(x)
+			if o == nil || o.Pkg() == nil || !core.InMod(o.Pkg().Path()) {
+				return
+			}
+			calls[o.Name()] = true
+			sc := x.Common().StaticCallee()
+			if sc == nil || depth >= 2 || sc.Pkg != fn.Pkg || sc.Name() == "Doc" || sc == fn || len(sc.Blocks) == 0 || ast.IsExported(sc.Name()) {
+				return
+			}
+			sub := map[int][]string{}
+			for i, a := range x.Common().Args {
+				l := c38Subst(core.OriginLeaves(a), subst)
+				sub[i] = strings.Fields(strings.Trim(l, "{}"))
+			}
+			c38Collect(sc, sub, depth+1, conds, calls)
+		}
+	})
 }
